@@ -74,7 +74,9 @@ package bridgesync
 //@   props C07 C14
 //@   requires p != nil && p.db != nil && p.log != nil && p.exitTree != nil && p.exitTree.Tree != nil && len(p.exitTree.zeroHashes) == 33
 //@   requires lastTx < heapTop
+//@   requires rhtOK(rhtHas(p.exitTree.Tree), rhtL(p.exitTree.Tree), rhtR(p.exitTree.Tree))
 //@   modifies heap
+//@   ensures[rht-content-addressed] rhtOK(rhtHas(p.exitTree.Tree), rhtL(p.exitTree.Tree), rhtR(p.exitTree.Tree))
 //@   ensures[halted-refuses] old(p.halted) ==> result == sync.ErrInconsistentState && lastTx == old(lastTx) && p.halted
 //@   ensures[all-or-nothing] (!old(p.halted) && lastTx != old(lastTx)) ==> ((result == nil ==> txState(lastTx) == 1) && (result != nil ==> txState(lastTx) == 2))
 //@   ensures[no-transaction-no-success] (!old(p.halted) && lastTx == old(lastTx)) ==> result != nil
@@ -83,6 +85,7 @@ package bridgesync
 //@   ensures[committed-only-if-every-statement-succeeded] result == nil ==> stmtFail == old(stmtFail)
 //@   loop 0 invariant p.halted == old(p.halted) && !p.halted && p.log == old(p.log) && p.log != nil && p.exitTree == old(p.exitTree) && p.exitTree != nil && p.exitTree.Tree != nil && len(p.exitTree.zeroHashes) == 33
 //@   loop 0 invariant 0 <= rangeindex + 1 && rangeindex + 1 <= len(block.Events)
+//@   loop 0 invariant rhtOK(rhtHas(p.exitTree.Tree), rhtL(p.exitTree.Tree), rhtR(p.exitTree.Tree))
 //@   loop 0 invariant stmtFail == old(stmtFail) && (leafCalls == old(leafCalls) || lastLeafErr == nil)
 //@   loop 0 invariant shouldRollback && tx != nil && lastTx == tx && tx != old(lastTx) && txState(tx) == 0
 
